@@ -234,4 +234,284 @@ theorem take_append_len {α : Type} (a b : List α) (n : Nat) (h : a.length = n)
 theorem drop_append_len {α : Type} (a b : List α) (n : Nat) (h : a.length = n) : (a ++ b).drop n = b := by
   subst h; simp
 
+
+
+theorem leBytes_take : ∀ (j k u : Nat), j ≤ k → (leBytes k u).take j = leBytes j u
+  | 0, _, _, _ => by simp [leBytes]
+  | j + 1, 0, _, h => by omega
+  | j + 1, k + 1, u, h => by
+    simp only [leBytes, List.take_succ_cons]
+    rw [leBytes_take j k (u / 256) (by omega)]
+
+theorem leBytes_getD : ∀ (i k u : Nat), i < k → (leBytes k u).getD i 0 = u / 256 ^ i % 256
+  | _, 0, _, h => by omega
+  | 0, k + 1, u, _ => by simp [leBytes]
+  | i + 1, k + 1, u, h => by
+    simp only [leBytes, List.getD_cons_succ]
+    rw [leBytes_getD i k (u / 256) (by omega), Nat.div_div_eq_div_mul, Nat.pow_succ, Nat.mul_comm]
+
+theorem decodeLong_leBytes (k u : Nat) :
+    decodeLong (leBytes k u) =
+      if 2 * (u % 256 ^ k) ≥ 256 ^ k then ((u % 256 ^ k : Nat) : Int) - ((256 ^ k : Nat) : Int) else ((u % 256 ^ k : Nat) : Int) := by
+  simp [decodeLong, fromLE_leBytes, leBytes_length]
+
+/-- Two's complement round trip when `x` fits in `k` bytes. -/
+theorem decodeLong_leSigned (k : Nat) (x : Int) (h1 : -((256 ^ k : Nat) : Int) ≤ 2 * x) (h2 : 2 * x < ((256 ^ k : Nat) : Int)) :
+    decodeLong (leSigned k x) = x := by
+  unfold leSigned
+  rw [decodeLong_leBytes]
+  generalize hP : (256 ^ k : Nat) = P at *
+  have hPpos : 0 < P := by rw [← hP]; exact Nat.pow_pos (by decide)
+  have hnn : 0 ≤ x % (P : Int) := Int.emod_nonneg _ (by omega)
+  have hlt : x % (P : Int) < P := Int.emod_lt_of_pos _ (by omega)
+  have hu : ((x % (P : Int)).toNat : Int) = x % (P : Int) := Int.toNat_of_nonneg hnn
+  have hmod : (x % (P : Int)).toNat % P = (x % (P : Int)).toNat := Nat.mod_eq_of_lt (by omega)
+  rw [hmod]
+  by_cases hx : 0 ≤ x
+  · have : x % (P : Int) = x := Int.emod_eq_of_lt hx (by omega)
+    rw [this] at hu
+    split <;> omega
+  · have : x % (P : Int) = x + P := by
+      rw [← Int.add_mul_emod_self_left x P 1]
+      simp only [Int.mul_one]
+      exact Int.emod_eq_of_lt (by omega) (by omega)
+    rw [this] at hu
+    split <;> omega
+
+
+theorem natAbs_lt_pow_bitLength (x : Int) (hx : x ≠ 0) : x.natAbs < 2 ^ bitLength x := by
+  simp only [bitLength, hx, if_false]
+  exact Nat.lt_log2_self
+
+theorem two_natAbs_lt (x : Int) (hx : x ≠ 0) : 2 * x.natAbs < 256 ^ (bitLength x / 8 + 1) := by
+  have h1 := natAbs_lt_pow_bitLength x hx
+  have h2 : (256 : Nat) ^ (bitLength x / 8 + 1) = 2 ^ (8 * (bitLength x / 8 + 1)) := by
+    rw [Nat.pow_mul]
+  rw [h2]
+  have h3 : bitLength x + 1 ≤ 8 * (bitLength x / 8 + 1) := by omega
+  have h4 : 2 ^ (bitLength x + 1) ≤ 2 ^ (8 * (bitLength x / 8 + 1)) := Nat.pow_le_pow_right (by decide) h3
+  rw [Nat.pow_succ] at h4
+  omega
+
+theorem decodeLong_encodeLong (x : Int) : decodeLong (encodeLong x) = x := by
+  unfold encodeLong
+  split
+  · rename_i h; subst h; simp [decodeLong, fromLE]
+  · rename_i hx
+    have hb := two_natAbs_lt x hx
+    generalize hn : bitLength x / 8 + 1 = n at *
+    simp only []
+    split
+    · rename_i hc
+      obtain ⟨hneg, hn1, hA, hB⟩ := hc
+      obtain ⟨j, rfl⟩ : ∃ j, n = j + 1 := ⟨n - 1, by omega⟩
+      have hj : 1 ≤ j := by omega
+      simp only [Nat.add_sub_cancel] at hA ⊢
+      have hjj : j + 1 - 2 = j - 1 := by omega
+      rw [hjj] at hB
+      unfold leSigned at hA hB ⊢
+      rw [leBytes_take j (j + 1) _ (by omega), decodeLong_leBytes]
+      rw [leBytes_getD j (j + 1) _ (by omega)] at hA
+      rw [leBytes_getD (j - 1) (j + 1) _ (by omega)] at hB
+      generalize hQ : (256 ^ j : Nat) = Q at *
+      have hP : (256 ^ (j + 1) : Nat) = 256 * Q := by rw [Nat.pow_succ, hQ, Nat.mul_comm]
+      rw [hP] at hA hB hb ⊢
+      have hQR : Q = 256 ^ (j - 1) * 256 := by
+        rw [← hQ, ← Nat.pow_succ]; congr 1; omega
+      generalize hR : (256 ^ (j - 1) : Nat) = R at *
+      have hRpos : 0 < R := by rw [← hR]; exact Nat.pow_pos (by decide)
+      have hxm : x % ((256 * Q : Nat) : Int) = x + ((256 * Q : Nat) : Int) := by
+        rw [← Int.add_mul_emod_self_left x _ 1]
+        simp only [Int.mul_one]
+        exact Int.emod_eq_of_lt (by omega) (by omega)
+      rw [hxm] at hA hB ⊢
+      generalize hu : (x + ((256 * Q : Nat) : Int)).toNat = u at *
+      have hu' : (u : Int) = x + ((256 * Q : Nat) : Int) := by rw [← hu]; exact Int.toNat_of_nonneg (by omega)
+      have hult : u < 256 * Q := by omega
+      have hQpos : 0 < Q := by omega
+      have hdiv : u / Q < 256 := by
+        rw [Nat.div_lt_iff_lt_mul hQpos]
+        omega
+      have hA' : u / Q = 255 := by rw [Nat.mod_eq_of_lt hdiv] at hA; exact hA
+      have hdm := Nat.div_add_mod u Q
+      rw [hA'] at hdm
+      have hB' : u % Q / R ≥ 128 := by
+        rw [hQR, Nat.mod_mul_right_div_self]; exact hB
+      have hB'' : 128 * R ≤ u % Q := (Nat.le_div_iff_mul_le hRpos).mp hB'
+      have hwlt : u % Q < Q := Nat.mod_lt _ (by omega)
+      split <;> omega
+    · exact decodeLong_leSigned n x (by omega) (by omega)
+
+
+
+attribute [local simp] NONE NEWTRUE NEWFALSE BININT1 BININT2 BININT LONG1 LONG4 BINFLOAT BINUNICODE
+  SHORT_BINBYTES BINBYTES EMPTY_LIST APPEND APPENDS MARK EMPTY_TUPLE TUPLE1 TUPLE2 TUPLE3 TUPLE
+  EMPTY_DICT SETITEM SETITEMS GLOBAL NEWOBJ BUILD REDUCE BINPUT LONG_BINPUT BINGET LONG_BINGET PROTO STOP
+
+section ops
+variable (r : Bs) (st : MState)
+
+theorem step_NONE : step (NONE :: r) st = some (r, st.push (.val .none)) := by simp [step]
+theorem step_NEWTRUE : step (NEWTRUE :: r) st = some (r, st.push (.val (.bool true))) := by simp [step]
+theorem step_NEWFALSE : step (NEWFALSE :: r) st = some (r, st.push (.val (.bool false))) := by simp [step]
+theorem step_BININT1 (b : Nat) : step (BININT1 :: b :: r) st = some (r, st.push (.val (.int b))) := by simp [step]
+theorem step_BININT2 (h : 2 ≤ r.length) :
+    step (BININT2 :: r) st = some (r.drop 2, st.push (.val (.int (fromLE (r.take 2))))) := by simp [step, h]
+theorem step_BININT (h : 4 ≤ r.length) :
+    step (BININT :: r) st = some (r.drop 4, st.push (.val (.int (decodeLong (r.take 4))))) := by simp [step, h]
+theorem step_LONG1 (n : Nat) (h : n ≤ r.length) :
+    step (LONG1 :: n :: r) st = some (r.drop n, st.push (.val (.int (decodeLong (r.take n))))) := by simp [step, h]
+theorem step_LONG4 (h : 4 ≤ r.length) (h2 : fromLE (r.take 4) ≤ (r.drop 4).length) :
+    step (LONG4 :: r) st = some ((r.drop 4).drop (fromLE (r.take 4)),
+      st.push (.val (.int (decodeLong ((r.drop 4).take (fromLE (r.take 4))))))) := by
+  simp only [step]; simp [h]; simpa using h2
+theorem step_BINFLOAT (h : 8 ≤ r.length) :
+    step (BINFLOAT :: r) st = some (r.drop 8, st.push (.val (.float (fromLE (r.take 8).reverse)))) := by simp [step, h]
+theorem step_BINUNICODE (h : 4 ≤ r.length) (h2 : fromLE (r.take 4) ≤ (r.drop 4).length) :
+    step (BINUNICODE :: r) st = some ((r.drop 4).drop (fromLE (r.take 4)),
+      st.push (.val (.str ((r.drop 4).take (fromLE (r.take 4)))))) := by
+  simp only [step]; simp [h]; simpa using h2
+theorem step_SHORT_BINBYTES (n : Nat) (h : n ≤ r.length) :
+    step (SHORT_BINBYTES :: n :: r) st = some (r.drop n, st.push (.val (.bytes (r.take n)))) := by simp [step, h]
+theorem step_BINBYTES (h : 4 ≤ r.length) (h2 : fromLE (r.take 4) ≤ (r.drop 4).length) :
+    step (BINBYTES :: r) st = some ((r.drop 4).drop (fromLE (r.take 4)),
+      st.push (.val (.bytes ((r.drop 4).take (fromLE (r.take 4)))))) := by
+  simp only [step]; simp [h]; simpa using h2
+theorem step_EMPTY_LIST : step (EMPTY_LIST :: r) st = some (r, st.push (.val (.list []))) := by simp [step]
+theorem step_EMPTY_TUPLE : step (EMPTY_TUPLE :: r) st = some (r, st.push (.val (.tuple []))) := by simp [step]
+theorem step_EMPTY_DICT : step (EMPTY_DICT :: r) st = some (r, st.push (.val (.dict []))) := by simp [step]
+theorem step_MARK : step (MARK :: r) st = some (r, st.push .mark) := by simp [step]
+end ops
+
+
+/-! ### stack operations -/
+
+theorem popMark_vals (vs : List PyVal) (rest : List SV) :
+    popMark (vs.map SV.val ++ SV.mark :: rest) = some (vs.map SV.val, rest) := by
+  induction vs with
+  | nil => simp [popMark]
+  | cons v vs ih => simp [popMark, ih]
+
+theorem vals_map (vs : List PyVal) : vals (vs.map SV.val) = some vs := by
+  induction vs with
+  | nil => simp [vals]
+  | cons v vs ih => simp [vals, ih]
+
+theorem popMark_vals' (vs : List PyVal) (rest : List SV) :
+    popMark ((vs.map SV.val).reverse ++ SV.mark :: rest) = some ((vs.map SV.val).reverse, rest) := by
+  rw [← List.map_reverse]; exact popMark_vals _ _
+
+theorem vals_map' (vs : List PyVal) : vals ((vs.map SV.val).reverse) = some vs.reverse := by
+  rw [← List.map_reverse]; exact vals_map _
+
+def flatKV (kvs : List (PyVal × PyVal)) : List PyVal := kvs.flatMap fun kv => [kv.1, kv.2]
+
+theorem pairUp_flatKV (kvs : List (PyVal × PyVal)) : pairUp (flatKV kvs) = some kvs := by
+  induction kvs with
+  | nil => simp [flatKV, pairUp]
+  | cons kv kvs ih =>
+    simp only [flatKV, List.flatMap_cons, List.cons_append, List.nil_append, pairUp]
+    simp only [flatKV] at ih
+    simp [ih]
+
+section stackops
+variable (r : Bs) (s : List SV) (mm : List SV)
+
+theorem step_APPEND (x : PyVal) (l : List PyVal) :
+    step (APPEND :: r) ⟨.val x :: .val (.list l) :: s, mm⟩ = some (r, ⟨.val (.list (l ++ [x])) :: s, mm⟩) := by
+  simp [step]
+
+theorem step_APPENDS (vs : List PyVal) (l : List PyVal) :
+    step (APPENDS :: r) ⟨vs.reverse.map SV.val ++ .mark :: .val (.list l) :: s, mm⟩
+      = some (r, ⟨.val (.list (l ++ vs)) :: s, mm⟩) := by
+  simp only [step]
+  simp [popMark_vals', vals_map']
+
+theorem step_SETITEM (k v : PyVal) (d : List (PyVal × PyVal)) :
+    step (SETITEM :: r) ⟨.val v :: .val k :: .val (.dict d) :: s, mm⟩
+      = some (r, ⟨.val (.dict (d ++ [(k, v)])) :: s, mm⟩) := by
+  simp [step]
+
+theorem step_SETITEMS (kvs : List (PyVal × PyVal)) (d : List (PyVal × PyVal)) :
+    step (SETITEMS :: r) ⟨(flatKV kvs).reverse.map SV.val ++ .mark :: .val (.dict d) :: s, mm⟩
+      = some (r, ⟨.val (.dict (d ++ kvs)) :: s, mm⟩) := by
+  simp only [step]
+  simp [popMark_vals', vals_map', pairUp_flatKV]
+
+theorem step_TUPLE1 (a : PyVal) :
+    step (TUPLE1 :: r) ⟨.val a :: s, mm⟩ = some (r, ⟨.val (.tuple [a]) :: s, mm⟩) := by simp [step]
+theorem step_TUPLE2 (a b : PyVal) :
+    step (TUPLE2 :: r) ⟨.val b :: .val a :: s, mm⟩ = some (r, ⟨.val (.tuple [a, b]) :: s, mm⟩) := by simp [step]
+theorem step_TUPLE3 (a b c : PyVal) :
+    step (TUPLE3 :: r) ⟨.val c :: .val b :: .val a :: s, mm⟩ = some (r, ⟨.val (.tuple [a, b, c]) :: s, mm⟩) := by
+  simp [step]
+theorem step_TUPLE (vs : List PyVal) :
+    step (TUPLE :: r) ⟨vs.reverse.map SV.val ++ .mark :: s, mm⟩ = some (r, ⟨.val (.tuple vs) :: s, mm⟩) := by
+  simp only [step]
+  simp [popMark_vals', vals_map']
+
+theorem step_put (idx : Nat) (top : SV) :
+    step (put idx ++ r) ⟨top :: s, mm⟩ = some (r, ⟨top :: s, mm ++ [top]⟩) := by
+  unfold put
+  split
+  · simp [step]
+  · simp [step, leBytes_length, drop_append_len]
+
+theorem step_get (idx : Nat) (x : SV) (h : idx < 2 ^ 32) (hx : mm[idx]? = some x) :
+    step (get idx ++ r) ⟨s, mm⟩ = some (r, ⟨x :: s, mm⟩) := by
+  unfold get
+  split
+  · simp [step, hx, MState.push]
+  · have h4 : (leBytes 4 idx ++ r).take 4 = leBytes 4 idx := take_append_len _ _ 4 (leBytes_length 4 idx)
+    have h5 : (leBytes 4 idx ++ r).drop 4 = r := drop_append_len _ _ 4 (leBytes_length 4 idx)
+    have h6 : fromLE (leBytes 4 idx) = idx := by rw [fromLE_leBytes]; exact Nat.mod_eq_of_lt h
+    simp only [List.cons_append, step]
+    simp [leBytes_length, h4, h5, h6, hx, MState.push]
+
+theorem step_NEWOBJ (c : Cls) :
+    step (NEWOBJ :: r) ⟨.val (.tuple []) :: .cls c :: s, mm⟩ = some (r, ⟨.obj c :: s, mm⟩) := by simp [step]
+
+theorem step_BUILD_cset (l : List PyVal) :
+    step (BUILD :: r) ⟨.val (.dict [(.str SEQUENCE, .list l)]) :: .obj .cset :: s, mm⟩
+      = some (r, ⟨.val (.set l) :: s, mm⟩) := by simp [step]
+
+theorem step_BUILD_cfset (l : List PyVal) :
+    step (BUILD :: r) ⟨.val (.dict [(.str SEQUENCE, .list l)]) :: .obj .cfset :: s, mm⟩
+      = some (r, ⟨.val (.frozenset l) :: s, mm⟩) := by simp [step]
+
+theorem step_PROTO (b : Nat) (st : MState) : step (PROTO :: b :: r) st = some (r, st) := by simp [step]
+
+theorem step_STOP (st : MState) : step (STOP :: r) st = none := by simp [step]
+
+end stackops
+
+theorem readLine_append : ∀ (l r : Bs), 10 ∉ l → readLine (l ++ 10 :: r) = some (l, r)
+  | [], r, _ => by simp [readLine]
+  | b :: l, r, h => by
+    have hb : b ≠ 10 := by intro e; apply h; simp [e]
+    have hl : 10 ∉ l := by intro e; apply h; simp [e]
+    simp [readLine, hb, readLine_append l r hl]
+
+theorem step_GLOBAL_cset (r : Bs) (st : MState) :
+    step (GLOBAL :: (Cls.name .cset ++ r)) st = some (r, st.push (.cls .cset)) := by
+  have e : Cls.name .cset ++ r = asciiBytes "joblib.hashing" ++ 10 :: (asciiBytes "_ConsistentSet" ++ 10 :: r) := by
+    simp [Cls.name, asciiBytes]
+  rw [e]
+  simp only [step]
+  rw [readLine_append _ _ (by decide)]
+  simp only []
+  rw [readLine_append _ _ (by decide)]
+  simp [classOf, Cls.name, asciiBytes]
+
+theorem step_GLOBAL_cfset (r : Bs) (st : MState) :
+    step (GLOBAL :: (Cls.name .cfset ++ r)) st = some (r, st.push (.cls .cfset)) := by
+  have e : Cls.name .cfset ++ r = asciiBytes "joblib.hashing" ++ 10 :: (asciiBytes "_ConsistentFrozenSet" ++ 10 :: r) := by
+    simp [Cls.name, asciiBytes]
+  rw [e]
+  simp only [step]
+  rw [readLine_append _ _ (by decide)]
+  simp only []
+  rw [readLine_append _ _ (by decide)]
+  simp [classOf, Cls.name, asciiBytes]
+
 end JoblibModel.HashStream
